@@ -5,12 +5,14 @@ package main
 import (
 	"bytes"
 	"encoding/json"
+	"fmt"
 	"strings"
 	"sync"
 	"time"
 
 	"github.com/mimecast/dtail/internal/server/handlers"
 	user "github.com/mimecast/dtail/internal/user/server"
+	"github.com/mimecast/dtail/internal/verifhook"
 )
 
 // session: drive one real ServerHandler (the unmodified command callback: reads, aggregates,
@@ -23,10 +25,38 @@ type sessionCase struct {
 	WaitMs   int      `json:"wait_ms"`
 	User     string   `json:"user"`
 	CatLimit int      `json:"cat_limit"`
+	// consumer pacing (C02): sleep before every Read; one long stall after StallAfter reads
+	ReadDelayUs int  `json:"read_delay_us"`
+	StallAfter  int  `json:"stall_after"`
+	StallMs     int  `json:"stall_ms"`
+	StallAtSyn  bool `json:"stall_at_empty"` // stall when the queues first run empty
+	GapMs       int  `json:"gap_ms"`         // pause between successive commands
+	Private     bool `json:"private_limiter"`
+	ReadBuf     int  `json:"read_buf"`
 }
 
 var sharedCat = map[int]chan struct{}{}
 var sharedTail = make(chan struct{}, 50)
+var sharedMu sync.Mutex
+
+// per-handler event log fed by the verif hooks ("handler.command", "handler.shutdown")
+var hookMu sync.Mutex
+var hookLog = map[string][]string{}
+var hookOnce sync.Once
+
+func installHooks() {
+	hookOnce.Do(func() {
+		verifhook.Register(func(name string, args ...interface{}) {
+			if name != "handler.command" && name != "handler.shutdown" {
+				return
+			}
+			key := fmt.Sprintf("%p", args[0])
+			hookMu.Lock()
+			hookLog[key] = append(hookLog[key], name)
+			hookMu.Unlock()
+		})
+	})
+}
 
 func init() {
 	serverSide["session"] = true
@@ -44,23 +74,44 @@ func init() {
 		if c.WaitMs <= 0 {
 			c.WaitMs = 400
 		}
+		sharedMu.Lock()
 		if sharedCat[c.CatLimit] == nil {
 			sharedCat[c.CatLimit] = make(chan struct{}, c.CatLimit)
 		}
+		catLim := sharedCat[c.CatLimit]
+		sharedMu.Unlock()
 		u, err := user.New(c.User, "127.0.0.1:1")
 		if err != nil {
 			return nil, err
 		}
-		h := handlers.NewServerHandler(u, sharedCat[c.CatLimit], sharedTail)
+		if c.Private {
+			catLim = make(chan struct{}, c.CatLimit)
+		}
+		installHooks()
+		h := handlers.NewServerHandler(u, catLim, sharedTail)
+		hkey := fmt.Sprintf("%p", h)
+		zeroBefore := []int{}
 		var mu sync.Mutex
 		var stream bytes.Buffer
 		synSeen := make(chan struct{})
 		readerDone := make(chan struct{})
 		go func() {
 			defer close(readerDone)
-			buf := make([]byte, 32*1024)
+			bufSize := 32 * 1024
+			if c.ReadBuf > 0 {
+				bufSize = c.ReadBuf
+			}
+			buf := make([]byte, bufSize)
 			seen := false
+			reads := 0
 			for {
+				if c.ReadDelayUs > 0 {
+					time.Sleep(time.Duration(c.ReadDelayUs) * time.Microsecond)
+				}
+				reads++
+				if c.StallMs > 0 && reads == c.StallAfter {
+					time.Sleep(time.Duration(c.StallMs) * time.Millisecond)
+				}
 				n, err := h.Read(buf)
 				if n > 0 {
 					mu.Lock()
@@ -80,7 +131,17 @@ func init() {
 		writesDone := make(chan struct{})
 		go func() {
 			defer close(writesDone)
-			for _, p := range c.Payloads {
+			for k, p := range c.Payloads {
+				if k > 0 {
+					if c.GapMs > 0 {
+						time.Sleep(time.Duration(c.GapMs) * time.Millisecond)
+					}
+					// the counter only grows when a command arrives: zero here means the session
+					// started shutting down before this command was received
+					if h.VerifActiveCommands() == 0 {
+						zeroBefore = append(zeroBefore, k)
+					}
+				}
 				h.Write([]byte(wrap(string(unhx(p)))))
 			}
 			for _, r := range c.Raw {
@@ -89,7 +150,7 @@ func init() {
 		}()
 		select {
 		case <-writesDone:
-		case <-time.After(8 * time.Second):
+		case <-time.After(time.Duration(8000+c.WaitMs) * time.Millisecond):
 		}
 		acked := false
 		select {
@@ -119,6 +180,20 @@ func init() {
 				frames = append(frames, hx([]byte(f)))
 			}
 		}
-		return map[string]interface{}{"frames": frames, "syn": acked, "closed": closed}, nil
+		hookMu.Lock()
+		events := hookLog[hkey]
+		delete(hookLog, hkey)
+		hookMu.Unlock()
+		late := false
+		sawShutdown := false
+		for _, e := range events {
+			if e == "handler.shutdown" {
+				sawShutdown = true
+			} else if sawShutdown {
+				late = true // a command was counted after the counter had returned to 0
+			}
+		}
+		return map[string]interface{}{"frames": frames, "syn": acked, "closed": closed, "zero_before_cmd": zeroBefore,
+			"late_command": late, "events": events}, nil
 	}
 }
